@@ -191,15 +191,26 @@ def run_cases(binary, lines, tag, shards=None, timeout=1800):
         with open(fn, 'w') as f:
             f.write('\n'.join(part))
             f.write('\n')
-        p = subprocess.Popen([binary, fn], stdout=subprocess.PIPE, stderr=subprocess.PIPE)
+        # outcomes go to a file, not a pipe: with pipes the shards read later would block on a full pipe
+        # and the run would be serial
+        fo = open(fn + '.out', 'wb')
+        p = subprocess.Popen([binary, fn], stdout=fo, stderr=subprocess.DEVNULL)
+        fo.close()
         procs.append((p, fn, part))
     res = {}
+    deadline = time.time() + timeout
     for p, fn, part in procs:
         try:
-            out, errb = p.communicate(timeout=timeout)
+            p.wait(timeout=max(1, deadline - time.time()))
         except subprocess.TimeoutExpired:
             p.kill()
-            out, errb = p.communicate()
+            p.wait()
+        with open(fn + '.out', 'rb') as fo:
+            out = fo.read()
+        try:
+            os.unlink(fn + '.out')
+        except OSError:
+            pass
         for line in out.decode('utf-8', 'replace').split('\n'):
             if not line:
                 continue
